@@ -222,7 +222,7 @@ func TestC07(t *testing.T) {
 					if op == "MinBetween" || op == "MaxBetween" {
 						via = "pkg"
 					}
-					shape := rapid.SampledFrom([][]int{{1}, {1, 1}, {1, 1, 1}}).Draw(rt, "shape")
+					shape := cloneInts(rapid.SampledFrom([][]int{{1}, {1, 1}, {1, 1, 1}, {}}).Draw(rt, "shape"))
 					c := &EWCase{Prop: "C07", Fam: "arith", Op: op, DT: d.Name, Form: form, Via: via, Mode: "safe"}
 					c.A = genOpnd(rt, shape, "contig", 1, 9, 0, "a")
 					if form == "TT" {
@@ -234,6 +234,10 @@ func TestC07(t *testing.T) {
 					c = withMode(rt, c, mode, d)
 					if c.Dst != nil {
 						c.Dst.L = Layout{Root: "rm"}
+					}
+					if inF73(c) {
+						rec.Class("excluded:F73")
+						c.Mode = "reuseA"
 					}
 					if inF17(c) {
 						// known finding F17 (operand a is clobbered): the delivered values are still checked,
@@ -433,6 +437,13 @@ func TestC12(t *testing.T) {
 }
 
 // inF17 is the region of known finding F17: one-element operands.
+// inF73 is the region of known finding F73: both operands are rank-0 tensors and the reuse tensor is (or
+// is a view of) the second one: the package functions dispatch the second operand as the scalar, copy the
+// first operand into the reuse tensor - which IS that scalar - and compute a op a.
+func inF73(c *EWCase) bool {
+	return c.Form == "TT" && len(c.A.Shape) == 0 && (c.Mode == "reuseB" || c.Mode == "reuseBv")
+}
+
 func inF17(c *EWCase) bool { return c.Mode == "incr" && prod(c.A.Shape) == 1 }
 
 // inF54: a comparison with the scalar on the left, done in place (UseUnsafe) on a one-element tensor.
